@@ -190,3 +190,16 @@ impl Pipeline {
         }
     }
 }
+
+/// Direct graph construction for the verification harness (synthetic node chains handed to the real planner).
+#[cfg(feature = "verif-hooks")]
+impl Pipeline {
+    /// `insert_node`, exposed.
+    pub fn verif_insert_node(&self, node: Node) -> NodeId {
+        self.insert_node(node)
+    }
+    /// `connect`, exposed.
+    pub fn verif_connect(&self, from: NodeId, to: NodeId) {
+        self.connect(from, to);
+    }
+}
